@@ -87,18 +87,37 @@ def _decl_openvpn_tcp(data):
     return None if length is None else 2 + length
 
 
-def _decl_ber(data):
-    if len(data) < 2:
+def _ber_end(data, pos, depth=0):
+    """End offset of the BER TLV starting at pos (definite short / long form, or the indefinite form of a
+    constructed value: children up to the end-of-contents octets), None when it is cut short or not BER."""
+    if depth > 32 or pos + 2 > len(data):
         return None
-    if data[0] & 0x1f == 0x1f:
+    tag = data[pos]
+    if tag & 0x1f == 0x1f:
         return None       # high tag numbers: not used by LDAPMessage
-    first = data[1]
+    first = data[pos + 1]
     if first < 0x80:
-        return 2 + first
+        return pos + 2 + first
     count = first & 0x7f
-    if count == 0 or len(data) < 2 + count:
+    if count == 0:
+        if not tag & 0x20:
+            return None   # the indefinite form needs a constructed value
+        cursor = pos + 2
+        while True:
+            if cursor + 2 > len(data):
+                return None
+            if data[cursor] == 0 and data[cursor + 1] == 0:
+                return cursor + 2
+            cursor = _ber_end(data, cursor, depth + 1)
+            if cursor is None:
+                return None
+    if pos + 2 + count > len(data):
         return None
-    return 2 + count + int.from_bytes(data[2:2 + count], 'big')
+    return pos + 2 + count + int.from_bytes(data[pos + 2:pos + 2 + count], 'big')
+
+
+def _decl_ber(data):
+    return _ber_end(data, 0)
 
 
 def _decl_pg(data):
